@@ -188,6 +188,7 @@ TExitEarly ==
 TMainExit == Ev("MainExit") /\ Adv /\ (ret <=> R.ok = 1) /\ ProcExit /\ TUNCH
 
 \* ---------------------------------------------------------------- signal handler
+TFilters == Ev("Filters") /\ Adv /\ Stutter /\ TUNCH
 TStage1 == Ev("Stage1") /\ Adv /\ Stutter /\ TUNCH
 TSigRaise == Ev("SigRaise") /\ Adv /\ Stutter /\ TUNCH
 TPlanAbandoned == Ev("PlanAbandoned") /\ Adv /\ Stutter /\ TUNCH
@@ -208,7 +209,7 @@ TNext ==
   \/ TTempCreate \/ TTempRegister \/ (\E w \in W : TCreateRefused(w)) \/ TReaderDrop \/ TWReturn
   \/ TEnterSel \/ TDequeue \/ TDisc \/ TRecv \/ TSelNone \/ TFiAll \/ TFirstPrint
   \/ TPrint \/ TPrinted \/ TAddNl \/ TRemove \/ TLoopExit \/ TTotals \/ TReturn \/ TExitEarly \/ TMainExit
-  \/ TSigRaise \/ TStage1 \/ TPlanAbandoned \/ THStart \/ THLock \/ THCleared \/ THNtfLock \/ THRemoved \/ THFlag
+  \/ TSigRaise \/ TFilters \/ TStage1 \/ TPlanAbandoned \/ THStart \/ THLock \/ THCleared \/ THNtfLock \/ THRemoved \/ THFlag
 
 TSpec == TInit /\ [][TNext]_tvars
 
